@@ -1,6 +1,6 @@
 """Shared helpers for the workflow properties (C07-C10, C14): job construction for the Go driver,
 projection of driver results to TraceWorkflow.tla events, and violation reporting."""
-import json, os
+import json, os, random
 import vlib
 
 KINDS = {
@@ -59,11 +59,17 @@ def trace_events(job, res, cnt, hist):
     return ev
 
 
-def run_and_validate(run, hz, jobs, meta, nproc=None, taskset=None, env=None, timeout=1800, confirm=True):
+def run_and_validate(run, hz, jobs, meta, nproc=None, taskset=None, env=None, timeout=1800, confirm=True, shuffle=True):
     """Runs driver jobs, validates the projected traces with TLC (TraceWorkflow), re-executes rejected
     jobs once (a verdict needs the real code to do it twice), reports violations.
     meta: id -> dict(cnt=, hist=, facts=) ; returns (results, rejected job ids)."""
-    rows, crashed = vlib.run_hz_jobs(hz, "workflow", jobs, nproc=nproc, taskset=taskset, env=env, timeout=timeout)
+    # execution order is a seeded shuffle of the job list: every driver process then runs the workflows of all kinds
+    # interleaved (a 15-item run before a 12-item one, a 125000-byte sample before a 2500-byte one, ...), so a result
+    # that depends on what the process did before is judged like any other result
+    order = list(jobs)
+    if shuffle:
+        random.Random(vlib.seed() * 7919 + len(jobs)).shuffle(order)
+    rows, crashed = vlib.run_hz_jobs(hz, "workflow", order, nproc=nproc, taskset=taskset, env=env, timeout=timeout)
     byid = {j["id"]: j for j in jobs}
     for c in crashed:
         j = c["first_missing"]
